@@ -80,13 +80,15 @@ def _db_lag_expr(dbmodel, expression):
 # # array([ 1, -1,  1, -1])
 # np.remainder([5, 5, -5, 5], [2, -2, 2, -2])
 # # array([ 1, -1,  1, -1])
-# SQL's MOD takes the sign of the dividend (MOD(-5, 2) is -1), numpy's the sign of the divisor:
-# take MOD twice, which stays in the type of the arguments
+# so we are just going to send it out and use destination semantics
 def _db_mod_expr(dbmodel, expression):
-    e0 = dbmodel.expr_to_sql(expression.args[0], want_inline_parens=False)
-    e1 = dbmodel.expr_to_sql(expression.args[1], want_inline_parens=False)
-    e1p = dbmodel.expr_to_sql(expression.args[1], want_inline_parens=True)
-    return f"MOD(MOD({e0}, {e1}) + {e1p}, {e1})"
+    return (
+        "MOD("
+        + dbmodel.expr_to_sql(expression.args[0], want_inline_parens=False)
+        + ", "
+        + dbmodel.expr_to_sql(expression.args[1], want_inline_parens=False)
+        + ")"
+    )
 
 
 # extend to floating point
